@@ -1152,7 +1152,8 @@ class MyPyAstVisitor:
                     case "Collection":
                         return sds_types.ListType(types=types)
 
-            elif type_name in {"dict", "Mapping"}:
+            elif type_name in {"dict", "Mapping"} and len(mypy_type.args) == 2:
+                # (a class of the package that merely is called "Mapping" has no key and value type)
                 return sds_types.DictType(
                     key_type=self.mypy_type_to_abstract_type(mypy_type.args[0]),
                     value_type=self.mypy_type_to_abstract_type(mypy_type.args[1]),
